@@ -1,5 +1,6 @@
 import Driver.Util
 import ZvbiModel.Idl.Model
+import ZvbiModel.Idl.Formats
 import ZvbiModel.Idl.Spec
 namespace Zvbi.Driver.Idl
 open Zvbi.Driver Zvbi.Idl
@@ -11,17 +12,31 @@ def hexN (s : String) (n : Nat) : Option (List Nat) :=
 
 def hex16 (n : Nat) : List Nat := [(n / 256) % 256, n % 256]
 
-/-- ops: `new <chan> <addr> <fill>`, `feed <42B>`, `reset`, `crctab`,
+/-- ops: `new <chan> <addr> <fill>` (format A), `newfmt <format> <chan> <addr>` (`_vbi_idl_demux_init` on zeroed
+    memory; a format value that would hit `assert (0)` is answered `rej format` and is never passed to the C code),
+    `feed <42B>`, `reset`, `crctab`, `state` (-> `ok <format> <channel> <address> <ci> <ri> <flags>`, the struct fields),
     model only: `spec_pkt <chan> <ft> <ial> <spa nibbles hex> <ri> <ci> <data> <dummy> <pad>` -/
-def step (st : Option St) (ws : List String) : Option St × String :=
+def step (st : Option StF) (ws : List String) : Option StF × String :=
   match ws with
   | ["new", c, a, f] =>
     (match parseNat c, parseNat a, parseNat f with
      | some c, some a, some f =>
        if c < 4294967296 ∧ a < 4294967296 ∧ f < 256 then
          (match new c a f with
-          | some s => (some s, "ok")
+          | some s => (some ⟨fmtA, s⟩, "ok")
           | none => (none, "ok null"))
+       else (st, "rej parse")
+     | _, _, _ => (st, "rej parse"))
+  | ["newfmt", f, c, a] =>
+    (match parseNat f, parseNat c, parseNat a with
+     | some f, some c, some a =>
+       if f < 4294967296 ∧ c < 4294967296 ∧ a < 4294967296 then
+         if f = fmtA ∨ f = fmtB ∨ f = fmtDatavideo ∨ f = fmtAudetel ∨ f = fmtLbra then
+           (match initF f c a 0 with
+            | .ok s => (some s, "ok")
+            | .null => (none, "ok null")
+            | .assertFail => (st, "rej assert"))
+         else (st, "rej format")
        else (st, "rej parse")
      | _, _, _ => (st, "rej parse"))
   | ["feed", h] =>
@@ -31,15 +46,23 @@ def step (st : Option St) (ws : List String) : Option St × String :=
        match st with
        | none => (st, "rej state")
        | some s =>
-         let (s', ret, cb) := feed s buf
-         let r := if ret then "ok 1" else "ok 0"
-         (some s', match cb with
-           | some cb => s!"{r} cb {cb.flags} {toHex cb.bytes}"
-           | none => r))
+         match feedF s buf with
+         | .assertFail => (st, "rej assert")
+         | .done s' ret cb =>
+           let r := if ret then "ok 1" else "ok 0"
+           (some s', match cb with
+             | some cb => s!"{r} cb {cb.flags} {toHex cb.bytes}"
+             | none => r))
   | ["reset"] =>
     (match st with
      | none => (st, "rej state")
-     | some s => (some (reset s), "ok"))
+     | some s => (some (resetF s), "ok"))
+  | ["state"] =>
+    (match st with
+     | none => (st, "rej state")
+     | some s =>
+       let i (o : Option Nat) : String := match o with | some n => toString n | none => "-1"
+       (st, s!"ok {s.fmt} {s.st.channel} {s.st.address} {i s.st.ci} {i s.st.ri} {s.st.flags}"))
   | ["crctab"] => (st, s!"ok {toHex ((List.range 256).foldr (fun i acc => hex16 (crcTab i) ++ acc) [])}")
   | ["spec_pkt", c, ft, ial, spa, ri, ci, data, dummy, pad] =>
     (match parseNat c, parseNat ft, parseNat ial, parseHex spa, parseNat ri, parseNat ci, parseHex data,
